@@ -329,6 +329,7 @@ def what_of(c, r, code):
     if is_iter(c):
         seen = {"finalize calls per op": r.get("fin_ops"), "finalized per op": r.get("fz_ops"),
                 "closed per op": r.get("closed_ops"), "after del+gc": [r.get("fin"), r.get("finalized_end")],
+                "after the caller's own finalize()": r.get("fin_caller"),
                 "other data objects": r.get("others"), "ctor": r.get("ctor"),
                 "finalized flag seen by _render_": [x[6] for x in r.get("log", [])],
                 "outcomes": [x[0][:3] for x in r.get("ops", [])]}
@@ -444,10 +445,10 @@ def run(ctx):
                 h["faults_actually_hit"] += 1
                 nontrivial.add(signature(c))
 
-    samples = [describe(v) for v in variants[:2]]
-    mid = [v for v in variants if v.get("faults")][:3]
-    samples += [describe(v) for v in mid]
-    samples += [describe(v) for v in variants if not is_iter(v)][:2]
+    samples = [describe(v) for v in variants[:1]]
+    samples += [describe(v) for v in variants if is_iter(v) and v.get("faults")][n_corpus * 3:][:2]
+    samples += [describe(v) for v in variants if not is_iter(v) and v.get("faults")][:2]
+    samples += [describe(v) for v in variants if not is_iter(v) and v["mode"] == "draw" and not v.get("faults")][-1:]
     return {
         "corr_name": "life of render data on the real RenderIterator / render() / str() / draw() over the "
                      "instrumented renderable VR10 == finalisation ghost of the Iter model (check10 / ocheck10 bit 1); "
